@@ -73,7 +73,7 @@ Fixpoint invert (fuel : nat) (s : passign) (e : cexp) (v : N) : inv_res :=
       match filter (fun x => negb (is_known s x)) l with
       | [] => if k =? v then IOk else IContra
       | [u] => if k <=? v then invert f s u (v - k) else IContra
-      | _ => if k <=? v then IStuck else IContra
+      | un => if k + N.of_nat (List.length un) <=? v then IStuck else IContra     (* every part is at least 1 *)
       end
     end
   end.
